@@ -175,3 +175,18 @@ Proof.
     + now destruct R as (_ & _ & _ & _ & ->).
     + now destruct R as (_ & _ & _ & -> & _).
 Qed.
+
+(* after a trim the cursor, if any, lies inside the canvas *)
+Lemma g_drop_cursor_inside g c x y :
+  cur (g_drop_cursor g c) = Some (x, y) -> 0 <= x < gwidth g /\ 0 <= y < gheight g.
+Proof.
+  unfold g_drop_cursor. destruct (cur c) as [[x0 y0]|] eqn:E.
+  - destruct ((0 <=? x0) && (x0 <? gwidth g) && (0 <=? y0) && (y0 <? gheight g)) eqn:B; cbn [cur]; [rewrite E; intros [= <- <-]; lia|discriminate].
+  - rewrite E. discriminate.
+Qed.
+Lemma g_drop_cursor_keeps g c x y :
+  cur c = Some (x, y) -> 0 <= x < gwidth g -> 0 <= y < gheight g -> g_drop_cursor g c = c.
+Proof.
+  intros E Hx Hy. unfold g_drop_cursor. rewrite E.
+  destruct ((0 <=? x) && (x <? gwidth g) && (0 <=? y) && (y <? gheight g)) eqn:B; [reflexivity|lia].
+Qed.
